@@ -94,6 +94,7 @@ func (e *Executor) runTask(t *task) {
 	defer func() {
 		// Notify other tasks that we are done reading them
 		for _, rt := range t.reading {
+			verifYield("task.release", t.id)
 			rt.l.Lock()
 			delete(rt.readers, t.id)
 			rt.l.Unlock()
@@ -101,6 +102,7 @@ func (e *Executor) runTask(t *task) {
 		t.reading = nil
 
 		// Notify blocked tasks that they can execute
+		verifYield("task.notify", t.id)
 		t.l.Lock()
 		for _, bt := range t.blocked {
 			// If we are the last dependency, mark the task as executable.
@@ -112,17 +114,21 @@ func (e *Executor) runTask(t *task) {
 		t.blocked = nil // free memory
 		t.executed = true
 		t.l.Unlock()
+		verifYield("task.done", t.id)
 		e.outstanding.Done()
 	}()
 
 	// We avoid doing this check when adding tasks to the queue
 	// because it would require more synchronization.
+	verifYield("task.check", t.id)
 	if e.err.Load() != nil {
 		return
 	}
 
 	// Execute the task
+	verifYield("task.exec", t.id)
 	if err := t.f(); err != nil {
+		verifYield("task.fail", t.id)
 		e.err.CompareAndSwap(nil, err)
 		return
 	}
@@ -167,6 +173,7 @@ func (e *Executor) Run(keys state.Keys, f func() error) {
 	for k, v := range keys {
 		lt, ok := e.nodes[k]
 		if ok {
+			verifYield("run.lock", id)
 			lt.l.Lock()
 			if v == state.Read {
 				// If we don't need exclusive access to a key, just mark
@@ -211,6 +218,7 @@ func (e *Executor) Run(keys state.Keys, f func() error) {
 
 	// Adjust dependency traker and execute if necessary
 	difference := e.maxDependencies + 1 - int64(dependencies.Len())
+	verifYield("run.finish", id)
 	if t.dependencies.Add(-difference) > 0 {
 		if e.metrics != nil {
 			e.metrics.RecordBlocked()
